@@ -715,10 +715,16 @@ func verifKV(c verifCase) any {
 		rm, ra := verifRawCall(op.M, op.A)
 		rv, re, _, _ := c12raw.C12Raw(raw, ctx, rm, ra)
 		cancel()
+		wx, rx := "", ""
+		if c12raw.C12TTLSensitive[op.M] && len(op.A) > 0 {
+			// value AND time to live of the key on the shard that holds it vs the single-server twin
+			wx = c12raw.C12KeyState(op.A.S(0), shards...)
+			rx = c12raw.C12KeyState(op.A.S(0), sr)
+		}
 		steps = append(steps, map[string]any{
 			"w":   map[string]any{"v": c12raw.C12Val(c12raw.C12Canon(op.M, wv)), "e": c12raw.C12Err(we)},
 			"r":   map[string]any{"v": c12raw.C12Val(c12raw.C12Canon(op.M, rv)), "e": c12raw.C12Err(re)},
-			"brk": "n/a", "xw": "", "xr": "",
+			"brk": "n/a", "xw": wx, "xr": rx,
 		})
 	}
 	snapshot()
